@@ -16,6 +16,8 @@ Spec: specs/ConfResolve.  Binding: harness/confmap (public API: confmap.NewResol
 Every expansion case is resolved twice by the driver: as the value of a top-level key (all observations), and at a
 second position chosen from the case id (item of a list next to items that settle sooner / later, below nested maps and
 lists): value / error must again be an admissible outcome of the specification ("EVERY reference is replaced").
+That second resolution runs on a Resolver that has already resolved the same document under OTHER provider values (a
+configuration reload; ConfReload.tla: a resolution depends on what the providers return at the time of that resolution).
 """
 import json, os, threading
 from concurrent.futures import ThreadPoolExecutor
@@ -122,6 +124,17 @@ def run(c):
                         label="design-replay", timeout=300, workers=4)
         c.finish_args = dict(rule="replay of one recorded case")
         return
+
+    # ---------------------------------------------------------------- 0: histories of resolutions on one Resolver (reload)
+    def reload_cfg(memo, steps):
+        return ("SPECIFICATION Spec\nCONSTANTS\n  Names = {\"A\", \"B\", \"C\"}\n  Lits = {\"x\", \"y\"}\n  MaxSteps = %d\n  Memo = %s\n"
+                "INVARIANTS HistoryFree TypeOK\nCHECK_DEADLOCK FALSE\n" % (steps, "TRUE" if memo else "FALSE"))
+    c.tlc_must_pass("ConfResolve", "ConfReload", cfg_text=reload_cfg(False, 4 if q else 5), label="reload-histories", timeout=900,
+                    workers=4)
+    r = c.tlc("ConfResolve", "ConfReload", cfg_text=reload_cfg(True, 4), workers=2, timeout=600, count=False, label="reload-memo-negative")
+    c.extra["memoising_resolver_refuted_by_tlc"] = bool(r.error and r.error[0] == "invariant")
+    if not (r.error and r.error[0] == "invariant"):
+        raise vlib.Inconclusive("TLC no longer refutes the memoising resolver: HistoryFree may be vacuous")
 
     # ---------------------------------------------------------------- 1+2: TLC, expansion
     plans = PLANS["quick" if q else "thorough"]
